@@ -556,6 +556,9 @@ func signature(d *Decl, v verdict) string {
 			if w := compare((&Decl{E: e}).Program()); w.kind == "" && w.soft {
 				return "float-rounding-visible"
 			}
+			if v.kind == "value" && (strings.HasPrefix(d.T, "float") || strings.HasPrefix(d.T, "complex")) && (goClass(e) == "uf" || goClass(e) == "uc") {
+				return "rat-float-double-rounding"
+			}
 		}
 	}
 	cls := ""
